@@ -43,10 +43,20 @@ def protection : Loc → Protection
   | .ResolvedJournal_FileOrder => .mainOwned .Workspace_mu
   | .ResolvedJournal_Files => .mainOwned .Workspace_mu
   | .ResolvedJournal_Primary => .mainOwned .Workspace_mu
+  -- ... and the instances that cannot be the workspace's (the translator follows the one
+  -- instance stored in Workspace.resolved through returns, locals and arguments): written
+  -- only while private to the load that builds them
+  | .ResolvedJournalDoc_FileOrder => .immutableAfterInit
+  | .ResolvedJournalDoc_Files => .immutableAfterInit
+  | .ResolvedJournalDoc_Primary => .immutableAfterInit
   -- server.Server
   | .Server_analyzer => .immutableAfterInit
   | .Server_cliClient => .guardedBy .Server_settingsMu
   | .Server_client => .immutableAfterInit
+  -- versioned diagnostics: the per-document sequence numbers; docVerMu is also held around
+  -- resolved.Delete/Store and payeeTemplatesCache.Delete (those two stay atomic cells)
+  | .Server_docSeq => .guardedBy .Server_docVerMu
+  | .Server_docVersions => .guardedBy .Server_docVerMu
   | .Server_documents => .atomicCell
   | .Server_loader => .immutableAfterInit
   | .Server_payeeTemplatesCache => .atomicCell
@@ -116,13 +126,16 @@ def covered (r : Row Loc Lock) : Bool :=
 def uncovered : List (Row Loc Lock) := accessTable.filter fun r => !covered r
 
 /-- The lock order the deadlock proof relies on: Workspace.mu may be held while Loader.mu is
-    taken (Workspace.Initialize → Loader.Load), never the other way round; settingsMu and the
+    taken (Workspace.Initialize → Loader.Load), publishMu while docVerMu is taken
+    (publishIfCurrent → isCurrentDocVersion), never the other way round; settingsMu and the
     token-cache mutex are leaf locks taken with nothing else held. -/
 def lockRank : Lock → Nat
   | .Server_settingsMu => 0
   | .semanticTokensCache_mu => 0
   | .Workspace_mu => 1
   | .Loader_mu => 2
+  | .Server_publishMu => 1
+  | .Server_docVerMu => 2
 
 /-- structs that own a mutex: the per-type lock identity of the table is exact only while
     these are constructed during initialisation -/
